@@ -5,8 +5,7 @@
 -/
 import QExPy.Model.Settings
 
-namespace QExPy
-open Settings
+namespace QExPy.Settings
 /-- enum option: a member of the option's own enum class, or the literal string of one -/
 def DocEnum (ty : EnumTy) (a : Arg) : Prop :=
   (∃ i, i < (Gen.members ty).length ∧ a = .scalar (.enumMember ty i)) ∨
@@ -144,4 +143,4 @@ theorem valueIdx_isSome_iff (l : List (String × String)) (s : String) :
         · exact h'
 
 
-end QExPy
+end QExPy.Settings
